@@ -134,6 +134,10 @@ def nt_conc_or_clnt(mode, case):
     return nt_clnt(mode, case) if case.split(" ", 1)[0] in ("CL", "CI", "CT", "SOAK") else nt_conc(mode, case)
 
 
+def nt_srvseq_or_conc(mode, case):
+    return nt_conc(mode, case) if case.split(" ", 1)[0] == "CH" else nt_srvseq(mode, case)
+
+
 def nt_conc(mode, case):
     # non-trivial: at least two requests outstanding at once (two arrivals before a send), distinct by content
     t = case.split()
@@ -142,7 +146,7 @@ def nt_conc(mode, case):
     return h(case[:200000]) if case.count(" A ") >= 3 else None
 
 
-NONTRIVIAL = {"C03": nt_conc, "C07": nt_conc, "C08": nt_conc_or_clnt, "C11": nt_conc, "C04": nt_srvseq, "C05": nt_srvseq, "C12": nt_srvseq, "C09": nt_clnt, "C10": nt_clnt,
+NONTRIVIAL = {"C03": nt_conc, "C07": nt_conc, "C08": nt_conc_or_clnt, "C11": nt_conc, "C04": nt_srvseq, "C05": nt_srvseq, "C12": nt_srvseq_or_conc, "C09": nt_clnt, "C10": nt_clnt,
               "C16": nt_tree, "C17": nt_tree, "C18": nt_tree, "C14": nt_ufs, "C15": nt_ufs, "C20": nt_log, "C01": nt_codec, "C02": nt_codec, "C13": nt_recv_or_clnt}
 
 
@@ -255,8 +259,9 @@ PROPS = {
         "clauses": ["C12"],
         "modes": [{"name": "srvseq-version", "harness": "srvseq", "modelcheck": "srvseq", "args": ["version"]},
                   {"name": "clntver", "harness": "clntver", "modelcheck": "clnt"},
+                  {"name": "srvconc", "harness": "srvconc", "modelcheck": "conc"},
                   {"name": "srvseq-random", "harness": "srvseq", "modelcheck": "srvseq", "args": ["random"]}],
-        "rule": "clntver (the client's direction): the real client's Connect against a scripted peer answering Rversion with msize far below / 1..25 below / equal to / above the client's proposal (client msize 24 .. 1 MiB+24) and either version string, for clients that do and do not ask for 9P2000.u; then attach, open (reported iounit 0, small, huge, msize-24, msize-23), one Write and one Read with buffers up to 3 x msize: the Tversion sent, the msize and dialect adopted, the largest Twrite frame and the Tread count are compared with Clnt/Version.v (clnt_connect, open_iounit, twrite_frame_len, tread_count); oracle: adopted msize = min, no frame above it, dialect conjunction. grid server msize x client msize over {0, 1, 23, 24, 25, 64, 100, 4096, 8191, 8192, 8193, 1 MiB+24, 2^32-1} x server dialect x version strings {9P2000, 9P2000.u, 9P2000.L, empty, junk, near misses}; after negotiation replies of every kind incl. a 255-byte-name Rstat, 16-qid Rwalk, 300-byte Rerror, reads with counts up to the limit, and a second Tversion lowering msize mid-session so replies go through recycled buffers; random histories with frames above msize. Oracle: Rversion = min / dialect conjunction, small msize refused, no reply longer than the msize in force, replies decodable in the negotiated dialect, oversize or undecodable frames answered by nothing and executing nothing. Non-trivial: >= 3 requests with at least one forwarded; distinct by content.",
+        "rule": "srvconc (the concurrent scenarios of C03, replayed label by label through Srv/Conc.v): in particular vermid - a Tversion in mid-session while a shared-tag group (one member executing, one waiting) and a request under another tag are inside the implementation; no reply to a request from before the Rversion may follow it (such a reply would be sized and encoded for the old msize and dialect). clntver (the client's direction): the real client's Connect against a scripted peer answering Rversion with msize far below / 1..25 below / equal to / above the client's proposal (client msize 24 .. 1 MiB+24) and either version string, for clients that do and do not ask for 9P2000.u; then attach, open (reported iounit 0, small, huge, msize-24, msize-23), one Write and one Read with buffers up to 3 x msize: the Tversion sent, the msize and dialect adopted, the largest Twrite frame and the Tread count are compared with Clnt/Version.v (clnt_connect, open_iounit, twrite_frame_len, tread_count); oracle: adopted msize = min, no frame above it, dialect conjunction. grid server msize x client msize over {0, 1, 23, 24, 25, 64, 100, 4096, 8191, 8192, 8193, 1 MiB+24, 2^32-1} x server dialect x version strings {9P2000, 9P2000.u, 9P2000.L, empty, junk, near misses}; after negotiation replies of every kind incl. a 255-byte-name Rstat, 16-qid Rwalk, 300-byte Rerror, reads with counts up to the limit, and a second Tversion lowering msize mid-session so replies go through recycled buffers; random histories with frames above msize. Oracle: Rversion = min / dialect conjunction, small msize refused, no reply longer than the msize in force, replies decodable in the negotiated dialect, oversize or undecodable frames answered by nothing and executing nothing. Non-trivial: >= 3 requests with at least one forwarded; distinct by content.",
         "level_text": "Coq theorems (Props/C12.v): Tversion yields exactly min(client msize, connection msize) and 9P2000.u only if the client asked for it and the server supports it, an msize below IOHDRSZ is refused leaving the connection unchanged; for EVERY later request and whatever the implementation answers no reply is longer than the msize in force when the request arrived (too long replies and error texts are replaced/truncated as the code does); msize stays within [IOHDRSZ, server msize]; the framing specification the receive loop is proved equal to (C13) never delivers a frame above msize or below a header. Tied to the code by the negotiation grid with byte-exact reply comparison. The client's direction: Connect adopts exactly min(own, server's) msize and 9P2000.u only if it asked for it and the server answered with it; composed with the server's Tversion handler, both sides hold the same msize and dialect after the exchange, for every state of the connection; with the iounit the client derives, no Twrite frame it sends and no Rread it asks for exceeds the negotiated msize for every reported iounit and buffer length.",
         "level_note": "Trusted: Coq kernel; translator for error texts/numbers, IOHDRSZ/MSIZE/NOFID/NOUID and the QT*/DM*/O* bits; extraction + OCaml driver; the Go harness (scripted implementation, net.Pipe transport). One request at a time (the concurrent life cycle is C03/C07/C08/C11); the user database is the default OsUsers; the implementation is an arbitrary input (script) answering with the matching R-message or an error; the reply buffer is modelled by its capacity. Print Assumptions: closed under the global context. Rread never carrying more than Tread asked for is the Ufs read model of C14 (pread clamps to count); the client side of the negotiation (Connect adopting min / conjunction) is exercised by the C09/C10/C14 harness sessions, not modelled.",
     },
@@ -291,7 +296,7 @@ PROPS = {
         "clauses": ["C17"],
         "modes": [{"name": "ufstree-mutate", "harness": "ufstree", "modelcheck": "ufstree", "args": ["mutate"]}],
         "rule": "random sequences of 14 mutations (create with all open modes incl. OTRUNC on free and occupied names and under non-directories, mkdir, symlink incl. dangling targets, write at random offsets, remove of files / empty and non-empty directories / missing names, rename to free and occupied names, truncate 0..beyond size, chmod, set mtime) applied through 9P to tree A and, using the statement's table, with os/syscall to a twin tree B; after EVERY step the trees are compared recursively (names, kinds, permission bits, contents, link targets) and the outcome and, in 9P2000.u, the error number are compared with the POSIX call on B. Distinct by content.",
-        "level_text": "Coq theorems (Props/C17.v) over the decision logic of the mutating handlers: all 256 open modes map to the access mode and O_TRUNC the statement lists (reflection over the finite domain); for every create request the system calls issued contain exactly the one corresponding POSIX operation (mkdir / symlink / link / open(O_CREAT) with the masked permission bits) and nothing else that can change the tree; a wstat with all don't-touch values does nothing, rename targets are confined and truncate/chtimes act on the renamed path. What those system calls do to the tree is the operating system's: it is validated, not proved, by the twin-tree differential after every step.",
+        "level_text": "(Ufs/WstatExact.v, 'changes nothing else' for Twstat, for EVERY request:) a Twstat issues only chmod/chown/rename/truncate/chtimes calls, each at most once and in this order; chmod iff a mode is given, on the fid's object with the requested permission bits; chown only in 9P2000.u and only for a numeric id; truncate iff a length is given and a requested rename was allowed, on the rename's destination, to exactly that length; chtimes iff a time is given, a time at its don't-touch value being kept. Coq theorems (Props/C17.v) over the decision logic of the mutating handlers: all 256 open modes map to the access mode and O_TRUNC the statement lists (reflection over the finite domain); for every create request the system calls issued contain exactly the one corresponding POSIX operation (mkdir / symlink / link / open(O_CREAT) with the masked permission bits) and nothing else that can change the tree; a wstat with all don't-touch values does nothing, rename targets are confined and truncate/chtimes act on the renamed path. What those system calls do to the tree is the operating system's: it is validated, not proved, by the twin-tree differential after every step.",
         "level_note": "Partial by design: the handlers' choice of system calls is proved, POSIX semantics are an oracle (twin tree). Trusted: Coq kernel; extraction; Go harness. Ownership changes (chown, user lookup) are not modelled; the harness runs as root, so permission denials are not exercised. Print Assumptions: closed under the global context.",
     },
     "C18": {
@@ -318,7 +323,7 @@ PROPS = {
         "clauses": ["C06"],
         "modes": [{"name": "crash", "harness": "crash", "modelcheck": None, "timeout": {"quick": 900, "thorough": 3400}},
                   {"name": "srvseq-random", "harness": "srvseq", "modelcheck": "srvseq", "args": ["random"]}],
-        "rule": "crash search from OUTSIDE the server process: a child process hosts a scripted implementation, one with AuthOps, and Ufs on a scratch tree (unix sockets, server msize 200000); each case is one connection: (structured) the fid states {root, walked file, opened file, opened directory, clunked, removed, auth fid, opened 120-entry directory} are set up request by request, then 4-23 adversarial requests are sent in one piece so they execute concurrently - every T-message type (and R-messages sent as requests) with fids drawn from the states plus unknown/extreme numbers incl. NOFID, 32/64-bit fields from boundary tables (0, 1, msize-24+-1, 2^31, 2^32-16, 2^63, 2^64-1) or random, names from {empty, '.', '..', '/', 'a/b', '../x', NUL, invalid UTF-8, 255/256/65000+/65535 bytes}, directory reads at arbitrary offsets, negotiated msize from {24,25,26,31,32,...,200001, 2^32-1}; (structured-pipelined) the same with the setup pipelined too; (noversion) requests without Tversion/Tattach; (mutated) byte flips, truncations, size-field/16-bit-field extremes, insertions, duplicated frames on a valid session; (random) raw random bytes; some streams written 1-9 bytes at a time. The scripted implementations answer as a hash of the request: success with extreme qids/iounits, errors, 60 KB error texts, partial walks, short reads, unencodable 70000-byte stat names. After every case: child alive (exit status, stderr), Tversion probe on a fresh connection, and a bystander connection per server still answered. One case = one connection. The srvseq-random mode ties the request-path model the theorems are about to the real framework (same comparison as C04/C05).",
+        "rule": "(since round 7 the last quarter of the generated cases runs a second time against a child started with the library's global -akaros switch on, kinds '+akaros': observation only, Akaros mode has no model) crash search from OUTSIDE the server process: a child process hosts a scripted implementation, one with AuthOps, and Ufs on a scratch tree (unix sockets, server msize 200000); each case is one connection: (structured) the fid states {root, walked file, opened file, opened directory, clunked, removed, auth fid, opened 120-entry directory} are set up request by request, then 4-23 adversarial requests are sent in one piece so they execute concurrently - every T-message type (and R-messages sent as requests) with fids drawn from the states plus unknown/extreme numbers incl. NOFID, 32/64-bit fields from boundary tables (0, 1, msize-24+-1, 2^31, 2^32-16, 2^63, 2^64-1) or random, names from {empty, '.', '..', '/', 'a/b', '../x', NUL, invalid UTF-8, 255/256/65000+/65535 bytes}, directory reads at arbitrary offsets, negotiated msize from {24,25,26,31,32,...,200001, 2^32-1}; (structured-pipelined) the same with the setup pipelined too; (noversion) requests without Tversion/Tattach; (mutated) byte flips, truncations, size-field/16-bit-field extremes, insertions, duplicated frames on a valid session; (random) raw random bytes; some streams written 1-9 bytes at a time. The scripted implementations answer as a hash of the request: success with extreme qids/iounits, errors, 60 KB error texts, partial walks, short reads, unencodable 70000-byte stat names. After every case: child alive (exit status, stderr), Tversion probe on a fresh connection, and a bystander connection per server still answered. One case = one connection. The srvseq-random mode ties the request-path model the theorems are about to the real framework (same comparison as C04/C05).",
         "level_text": "Coq theorems (Props/C06.v): a composition over every stage client bytes pass through, each for ALL inputs and states: the decoder never panics on any byte string (both dialects; stat records too); the receive loop hands on only well-framed messages within msize for any stream and segmentation, never reads into an empty slice, and ends (only) its own loop on a bad frame; on the request path, for EVERY request history (any message incl. R-messages, NOFID, unknown/stale/reused fids, any order, any msize >= 24) and whatever the implementation answers, every fid pointer a handler dereferences is set, NOFID/unknown fids are refused before a handler runs, the error text is sliced with a non-negative bound and the reply is a packed message of 7..msize bytes when its tag is patched; a count of 2^32-16 is refused (uint32 arithmetic); under pipelined, concurrently executing requests a fid whose creating request is unanswered is never handed to a handler, for every interleaving (and the unguarded FidGet is refuted by a 4-step schedule: the defect that was repaired); the Ufs directory window never slices out of range for any offset and count. What a theorem cannot exhibit - the Go runtime aborting the process - is observed from outside by the crash harness.",
         "level_note": "Partial: the crash sites are the ones made explicit in the models (nil fid pointers, slice bounds of the decoder, the directory window, the error-text slice, SetTag); a Go panic at a site the models do not represent (e.g. inside os/syscall wrappers of Ufs, type assertions on SrvFid.Aux beyond the visibility guard, the stats/http code) is only searched for by the crash harness. The fid-visibility LTS is hand-written after FidNew/FidGet/retain and assumes the implementation sets a fid up before it answers success. Trusted: Coq kernel; translator for constants; extraction + OCaml driver (srvseq tie); Go harness; the operating system's process semantics for the outside observation. Print Assumptions: closed under the global context.",
         "assumptions": ["the implementation sets up a fid (SrvFid.Aux) before it answers the creating Tattach/Tauth/Twalk with success", "the implementation itself does not panic on the requests it is handed (the scripted ones are total; Ufs is covered by the crash search and, for directory reads and paths, by C15/C18 theorems)"],
